@@ -93,6 +93,7 @@ type Ctx struct {
 	idx      uint64
 	skip     map[uint64]bool
 	only     int64
+	expCalls uint64
 	deadline time.Time
 	nt       map[uint64]struct{}
 	maxViol  int
@@ -159,7 +160,10 @@ func (c *Ctx) Expired() bool {
 	if c.expired {
 		return true
 	}
-	if !c.deadline.IsZero() && c.idx%256 == 0 && time.Now().After(c.deadline) {
+	// the clock is looked at on every 256th case and on every 16th call (units whose cases are long
+	// call Expired far more rarely than they call Next, and not at multiples of anything)
+	c.expCalls++
+	if !c.deadline.IsZero() && (c.idx%256 == 0 || c.expCalls%16 == 0) && time.Now().After(c.deadline) {
 		c.expired = true
 	}
 	return c.expired
